@@ -68,6 +68,16 @@ FRAGMENTS = [
     "c = torch.tensor([[1.0, 2.0], [3.0, 4.0], [5.0, 6.0]])\nidx = (t.abs().long() % 3)\nr = c[idx]",
     "z = torch.zeros(*t.shape[:-1], 2)\nr = z.shape",
     "z = torch.ones(*t.shape, 2)\nr = z.sum(dim=-1) + t",
+    "m = torch.zeros(3, dtype=torch.bool)\nm[torch.tensor([2, 0])] = True\nr = t[:, m]",
+    "m = torch.zeros(3, dtype=torch.bool)\nm[[1]] = True\ny = t.clone()\ny[:, m] = 9\ny[:, ~m] = t[:, ~m] * 2\nr = y",
+    "m = torch.zeros(3, dtype=torch.bool)\nm[torch.tensor([2, 0])] = True\ny = torch.zeros(2, 3)\ny[:, m] = torch.eye(2)\nr = y",
+    "m = torch.ones(2, dtype=torch.bool)\nm[0] = False\nr = t[m]",
+    "m = t[0] > 0\nr = t[:, m].sum()",
+    "y = torch.zeros(2, 4)\ny[:, [3, 0, 1]] = t\nr = y",
+    "y = torch.zeros(2, 4)\ny[:, torch.tensor([2, 0])] = torch.eye(2)\nr = y",
+    "y = torch.zeros(3, 3)\ny[[0, 2], [1, 0]] = torch.tensor([5.0, 7.0])\nr = y",
+    "y = torch.zeros(2, 3)\ny[:, [0, 2]] = t[0, :2]\nr = y",
+    "y = t.clone()\ny[0:2, [1]] = 4\nr = y",
     "r = t[::2, 1]",
     "r = t[:, ::2]",
     "r = t[1:, 1::2]",
